@@ -23,6 +23,9 @@ type Config struct {
 	Horizon  time.Duration // quiescence horizon: no timer fires within it => nothing will ever happen
 	StepCap  int64         // hard bound on scheduling steps
 	Fine     bool          // enable plain (statement level) yields
+	// FineNum/FineDen: when FineDen > 0 the run enables plain yields with probability FineNum/FineDen,
+	// decided by the first draw of the schedule tape (so forced generation prefixes are not disturbed)
+	FineNum, FineDen int
 	FinePkg  string        // if set: only functions whose name contains it get plain yields
 	Daemons  []string      // creation-site substrings of goroutines that never end by design
 	KeepLog  bool
@@ -198,6 +201,9 @@ func Run(cfg Config, tape *Tape, root func(s *Sim)) *Sim {
 	}
 	defer current.Store(nil)
 
+	if cfg.FineDen > 0 {
+		s.cfg.Fine = tape.Int(cfg.FineDen) >= cfg.FineDen-cfg.FineNum
+	}
 	if cfg.ClockJumps > 0 && cfg.JumpMax > 0 {
 		within := cfg.JumpWithin
 		if within <= 0 {
